@@ -1148,3 +1148,165 @@ Proof. intros Hf. unfold p2j_walk, p2j_walk_gen. apply walk_msg_depth_stable; li
 Corollary p2j_walk_gen_total fl f o Sc name bs : (length bs < f)%nat ->
   p2j_walk_gen fl f o Sc name bs = p2j_walk_gen fl (S (length bs)) o Sc name bs.
 Proof. intros Hf. unfold p2j_walk_gen. apply walk_msg_depth_stable; lia. Qed.
+
+(* ---- fuel-explicit copy of the P2J walk: ONE loop fuel lf handed to every loop (packed run, unpacked run, map run,
+   message loop) and a nesting fuel df.  Only the five functions that fix a fuel are copied; read_single, read_entry and
+   the three inner loops are the model's own. ---- *)
+Section P2JWalkExplicitFuel.
+  Variable fl : Z -> list Z.
+  Variable o : p2j_opts.
+  Variable Sc : schema.
+  Variable lf : nat.
+
+  Section LevelF.
+    Variable rec : list Z -> list Z -> option text.
+
+    Definition walk_list_f (n : Z) (t : ftype) (wt : Z) (bs : list Z) : option (text * list Z) :=
+      if (wt =? 2) && type_numeric t then
+        match rd_len bs with
+        | None => None
+        | Some (l, r) =>
+          match ProtoMsg.take l r with
+          | None => None
+          | Some (payload, rest) =>
+            match packed_loop fl o rec lf t payload with
+            | Some x => Some (91 :: x ++ [93], rest)
+            | None => None
+            end
+          end
+        end
+      else
+        match read_single fl o rec t bs with
+        | None => None
+        | Some (x, r) =>
+          match unpacked_loop fl o rec lf t n r with
+          | Some (more, rest) => Some (91 :: x ++ more ++ [93], rest)
+          | None => None
+          end
+        end.
+
+    Definition walk_map_f (n kk : Z) (t : ftype) (bs : list Z) : option (text * list Z) :=
+      match read_entry fl o rec kk t bs with
+      | None => None
+      | Some (x, r) =>
+        match map_loop fl o rec lf kk t n r with
+        | Some (more, rest) => Some (123 :: x ++ more ++ [125], rest)
+        | None => None
+        end
+      end.
+
+    Definition walk_field_f (fd : fdesc) (wt : Z) (bs : list Z) : option (text * list Z) :=
+      match fd_label fd with
+      | LSingular => read_single fl o rec (fd_type fd) bs
+      | LRepeated _ => walk_list_f (fd_num fd) (fd_type fd) wt bs
+      | LMap kk => walk_map_f (fd_num fd) kk (fd_type fd) bs
+      end.
+
+    Fixpoint walk_fields_f (fuel : nat) (md : mdesc) (comma : bool) (bs : list Z) : option text :=
+      match bs with
+      | [] => Some []
+      | _ :: _ =>
+        match fuel with
+        | O => None
+        | S f =>
+          match rd_tag bs with
+          | None => None
+          | Some (num, wt, r) =>
+            match ProtoMsg.find_field md num with
+            | None =>
+              if o_disallow_unknown o then None
+              else match skip_val wt r with Some r' => walk_fields_f f md comma r' | None => None end
+            | Some fd =>
+              match walk_field_f fd wt r with
+              | None => None
+              | Some (x, r') =>
+                match walk_fields_f f md true r' with
+                | Some more => Some ((if comma then [44] else []) ++ quote_ref (fd_json fd) ++ 58 :: x ++ more)
+                | None => None
+                end
+              end
+            end
+          end
+        end
+      end.
+
+    Definition walk_body_f (name : list Z) (body : list Z) : option text :=
+      match find_msg Sc name with
+      | Some md =>
+        match walk_fields_f lf md false body with
+        | Some x => Some (123 :: x ++ [125])
+        | None => None
+        end
+      | None => None
+      end.
+
+    (* with lf >= the number of bytes of the buffer, the copies are the model's functions, for any rec *)
+    Lemma walk_list_f_eq n t wt bs : (length bs <= lf)%nat -> walk_list_f n t wt bs = walk_list fl o rec n t wt bs.
+    Proof.
+      intros Hlf. unfold walk_list_f, walk_list. destruct ((wt =? 2) && type_numeric t).
+      - destruct (rd_len bs) as [[l r0]|] eqn:E0; [|reflexivity]. apply rd_len_shrinks in E0.
+        destruct (ProtoMsg.take l r0) as [[payload rest]|] eqn:E1; [|reflexivity]. apply ptake_len in E1.
+        rewrite (packed_loop_fuel_stable fl o rec lf (S (length payload)) t payload) by lia. reflexivity.
+      - destruct (read_single fl o rec t bs) as [[y r0]|] eqn:E0; [|reflexivity]. apply read_single_shrinks in E0.
+        rewrite (unpacked_loop_fuel_stable fl o rec lf (S (length r0)) t n r0) by lia. reflexivity.
+    Qed.
+
+    Lemma walk_map_f_eq n kk t bs : (length bs <= lf)%nat -> walk_map_f n kk t bs = walk_map fl o rec n kk t bs.
+    Proof.
+      intros Hlf. unfold walk_map_f, walk_map.
+      destruct (read_entry fl o rec kk t bs) as [[y r0]|] eqn:E0; [|reflexivity]. apply read_entry_shrinks in E0.
+      rewrite (map_loop_fuel_stable fl o rec lf (S (length r0)) kk t n r0) by lia. reflexivity.
+    Qed.
+
+    Lemma walk_field_f_eq fd wt bs : (length bs <= lf)%nat -> walk_field_f fd wt bs = walk_field fl o rec fd wt bs.
+    Proof.
+      intros Hlf. unfold walk_field_f, walk_field. destruct (fd_label fd).
+      - reflexivity.
+      - apply walk_list_f_eq; assumption.
+      - apply walk_map_f_eq; assumption.
+    Qed.
+
+    Lemma walk_fields_f_eq : forall f md c bs, (length bs <= lf)%nat ->
+      walk_fields_f f md c bs = P2JBytes.walk_fields fl o rec f md c bs.
+    Proof.
+      induction f as [|f IH]; intros md c bs Hlf; destruct bs as [|c0 p]; try reflexivity.
+      cbn [walk_fields_f P2JBytes.walk_fields].
+      destruct (rd_tag (c0 :: p)) as [[[num wt] r]|] eqn:Et; [|reflexivity]. apply rd_tag_shrinks in Et.
+      destruct (ProtoMsg.find_field md num) as [fd|].
+      - rewrite walk_field_f_eq by lia.
+        destruct (walk_field fl o rec fd wt r) as [[x r']|] eqn:E; [|reflexivity]. apply walk_field_shrinks in E.
+        rewrite IH by lia. reflexivity.
+      - destruct (o_disallow_unknown o); [reflexivity|].
+        destruct (skip_val wt r) as [r'|] eqn:E; [|reflexivity]. apply skip_val_le in E.
+        apply IH. lia.
+    Qed.
+  End LevelF.
+
+  Fixpoint walk_msg_f (df : nat) (name : list Z) (body : list Z) : option text :=
+    match df with
+    | O => None
+    | S f => walk_body_f (walk_msg_f f) name body
+    end.
+
+  (* same nesting fuel, loop fuel >= |body|: the model's answer *)
+  Lemma walk_msg_f_eq : forall df name body, (length body <= lf)%nat ->
+    walk_msg_f df name body = walk_msg fl o Sc df name body.
+  Proof.
+    induction df as [|df IH]; intros name body Hlf; [reflexivity|].
+    cbn [walk_msg_f walk_msg]. unfold walk_body_f, walk_body.
+    destruct (find_msg Sc name) as [md|]; [|reflexivity].
+    rewrite walk_fields_f_eq by assumption.
+    rewrite (pwalk_fields_ext_fuel fl o (walk_msg_f df) (walk_msg fl o Sc df) lf (S (length body)) md false body);
+      [reflexivity|lia|lia|].
+    intros nm b Hb. apply IH. lia.
+  Qed.
+
+  (* loop fuel >= |bs| and nesting fuel > |bs| / 2: the model's p2j_walk_gen at ITS fuel |bs| + 1; hence every such
+     pair of fuels gives the same answer and a None is never "out of fuel" *)
+  Theorem p2j_walk_f_total df name bs : (length bs <= lf)%nat -> (length bs < 2 * df)%nat ->
+    walk_msg_f df name bs = p2j_walk_gen fl (S (length bs)) o Sc name bs.
+  Proof.
+    intros Hlf Hdf. rewrite walk_msg_f_eq by assumption. unfold p2j_walk_gen.
+    apply walk_msg_depth_stable_half; lia.
+  Qed.
+End P2JWalkExplicitFuel.
